@@ -90,16 +90,23 @@ RejTag(D, k, b) ==
          (IF k \in {"SR", "RR", "SDES", "BYE"} THEN "C04:inflated_count_accepted" ELSE "C04:short_packet_accepted")
   ELSE "C07:foreign_accepted"
 
+\* CompoundPacket.Unmarshal (C11): the datagram decodes and the result validates
+DecCP(D, b) ==
+  LET r == DecDatagram(D, b) IN
+  IF r.st = "ok" THEN (IF Valid(r.v) THEN Ok([k |-> "CP", pkts |-> r.v]) ELSE Rej)
+  ELSE r
+DecEntry(D, k, b) == IF k = "CP" THEN DecCP(D, b) ELSE DecAs(D, k, b)
+
 \* bytes-level judgement of kind k's own decoder on b (C04, C07, C16, C01)
 DecodeTags(D, k, b, res) ==
   TotalTags(res, Len(b)) \cup
   IF res.panic \/ res.slow THEN {}
-  ELSE LET r == DecAs(D, k, b) IN
+  ELSE LET r == DecEntry(D, k, b) IN
        IF r.st = "ok" THEN
-            (IF ~res.ok THEN {"C04:valid_rejected"}
-             ELSE IF res.out # r.v THEN {"C04:value"}
+            (IF ~res.ok THEN {IF k = "CP" THEN "C11:valid_compound_rejected" ELSE "C04:valid_rejected"}
+             ELSE IF res.out # r.v THEN {IF k = "CP" THEN "C11:compound_value" ELSE "C04:value"}
              ELSE {})
-       ELSE IF r.st = "rej" THEN (IF res.ok THEN {RejTag(D, k, b)} ELSE {})
+       ELSE IF r.st = "rej" THEN (IF res.ok THEN {IF k = "CP" THEN "C11:invalid_compound_accepted" ELSE RejTag(D, k, b)} ELSE {})
        ELSE {}
 
 \* round-trip judgement (C02): b was produced by the library's own Marshal
@@ -124,6 +131,22 @@ RtDatagramTags(D, v, res) ==
        ELSE IF Len(res.out) # Len(r.v) \/ \E i \in 1..Len(r.v) : res.out[i].k # r.v[i].k
             THEN {"C02:roundtrip_type", "C07:own_output_dispatch"}
        ELSE IF res.out # r.v THEN {"C02:roundtrip_value"}
+       ELSE {}
+
+\* C09: v was produced by a decoder, Marshal of it succeeded, and the new
+\* bytes are decoded again: they must be accepted and give an equal value.
+\* A TransportLayerCC whose header is inconsistent with its content is exempt.
+\* Under a deviation the expectation is the deviating model's own round trip.
+TwccExempt(v) ==
+  IF IsList(v) THEN \E i \in 1..Len(v.pkts) : v.pkts[i].k = "TWCC" /\ ~(v.pkts[i].hdr.c <= 31 /\ TwccConsistent(v.pkts[i]))
+  ELSE v.k = "TWCC" /\ ~(v.hdr.c <= 31 /\ TwccConsistent(v))
+StableTags(D, v, res) ==
+  IF res.panic \/ res.slow \/ TwccExempt(v) \/ v.pkts = << >> THEN {}
+  ELSE LET strict == D = {} \/ ~WFAny(D, v)
+           r == IF strict THEN Ok(v.pkts) ELSE DecDatagram(D, EncAny(D, v)) IN
+       IF r.st # "ok" THEN {}
+       ELSE IF ~res.ok THEN {"C09:reencoded_rejected"}
+       ELSE IF res.out # r.v THEN {"C09:reencoded_differs"}
        ELSE {}
 
 \* bytes-level judgement of rtcp.Unmarshal on a datagram (C04, C06, C07, C01)
